@@ -11,7 +11,14 @@ def run(pid, path):
     with open(path) as f:
         r = json.load(f)
     print(json.dumps({k: v for k, v in r.items() if k not in ('solver_output',)}, indent=1)[:4000])
-    if r.get('kind') == 'refuted-obligation':
+    if r.get('kind') == 'refuted-obligation' and (r.get('native_replay') or {}).get('code'):
+        # the counter-model as a call of the real function
+        env = dict(os.environ)
+        env['PYTHONPATH'] = os.environ.get('HL7APY_REPO', '/repo')
+        code = r['native_replay']['code'].replace(r['native_replay'].get('repo', '\x00'), env['PYTHONPATH'])
+        p = subprocess.run(['/venv/bin/python', '-c', code], env=env, capture_output=True, text=True)
+        print('native replay of the counter-model: %s -> %s' % (r['native_replay'].get('call'), p.stdout.strip()[-300:]))
+    if r.get('kind') in ('refuted-obligation', 'failed-obligation'):
         sys.path.insert(0, HERE)
         from contracts import build_world
         from pyvc.spec import Verifier
